@@ -7,5 +7,5 @@ import "time"
 var vT0 time.Time
 
 // native side: wall-clock time spent in the handler (under symbolic execution time.Sleep is a recording stub)
-func vClockStart()    { vT0 = time.Now() }
+func vClockStart()   { vT0 = time.Now() }
 func vSleptMS_() int { return int(time.Since(vT0) / time.Millisecond) }
